@@ -163,6 +163,13 @@ def run_case(c, stats):
         if ok:
             call(p.to_final_state)
             ok2, g2 = call(p.to_cfg)          # round trip CFG -> PDA -> CFG
+            # the returned automaton belongs to the caller: edited, and the grammar converted again
+            sts = sorted(p.states, key=lambda x: repr(x.value))
+            zs = sorted(p.stack_symbols, key=lambda x: repr(x.value))
+            if sts and zs:
+                call(p.add_transition, sts[0], "zz_edit", zs[0], sts[0], [])
+                call(p.add_final_state, sts[0])
+                call(g.to_pda)
         return nt
     p = gpda.build(c["p"])
     stats.cls("pda:" + c["p"]["vc"])
